@@ -334,40 +334,72 @@ theorem sats_from_btc_exact (d : Dec) (s : Int) (h : satsFromBtc d = .ok s) :
     · simp only [hr, not_false_eq_true, if_true] at h
       cases h
 
-/-- fee-rate units: sat/vB → sat/kvB is exact or refused (`finer than a millisatoshi`), and the
-    sat/vB reading of every rate converts back to the same sat/kvB integer. -/
+/-- fee-rate units: the sat/vB reading of a rate converts back to the same sat/kvB integer for every
+    rate below 10^19 sat/kvB (10^16 sat/vB: more than MAX_MONEY for a single virtual byte), and a
+    reading at or above that is refused (by the position of its leading digit, before any ratio is taken). -/
 theorem feerate_units_roundtrip (k : Nat) :
-    feeRateFromSatsPerVbyte (.fin false (satsPerVbyte k).1 (satsPerVbyte k).2) = .ok (k : Int) := by
+    (k < 10 ^ 19 →
+      feeRateFromSatsPerVbyte (.fin false (satsPerVbyte k).1 (satsPerVbyte k).2) = .ok (k : Int)) ∧
+    (10 ^ 19 ≤ k →
+      feeRateFromSatsPerVbyte (.fin false (satsPerVbyte k).1 (satsPerVbyte k).2) = .error .value) := by
   unfold feeRateFromSatsPerVbyte satsPerVbyte
+  simp only [Int.toNat_natCast]
   have h3 : scaled 3 (normalize k (-3)).1 (normalize k (-3)).2 = some k := scaled_normalize 3 k
-  simp only [Int.toNat_natCast, h3, Bool.false_eq_true, if_false]
-  exact feeRate_nat k
+  by_cases hk : k = 0
+  · subst hk
+    have hz : normalize 0 (-3) = (0, 0) := by decide
+    constructor
+    · intro _; rw [hz]; decide
+    · intro h; simp at h
+  · obtain ⟨hc, hlo, hle, hgt⟩ := adjusted_satsPerVbyte k hk
+    constructor
+    · intro hlt
+      have h1 : ¬ (adjusted (normalize k (-3)).1 (normalize k (-3)).2 > 15) := by have := hle hlt; omega
+      have h2 : ¬ (adjusted (normalize k (-3)).1 (normalize k (-3)).2 < -3) := by omega
+      simp only [h1, h2, and_false, if_false, h3, Bool.false_eq_true]
+      exact feeRate_nat k
+    · intro hge
+      have h1 := hgt hge
+      simp [hc, h1]
 
+/-- sat/vB → sat/kvB is exact or refused: an accepted quote is non-negative, is the quote times 1000
+    *exactly* (`finer than a millisatoshi` is refused, never rounded), and when non-zero has its
+    leading digit between 10^-3 and 10^15. -/
 theorem feerate_from_sats_per_vbyte_exact (d : Dec) (r : Int) (h : feeRateFromSatsPerVbyte d = .ok r) :
-    0 ≤ r ∧ ∃ neg c e, d = .fin neg c e ∧
+    0 ≤ r ∧ ∃ neg c e, d = .fin neg c e ∧ (c ≠ 0 → -3 ≤ adjusted c e ∧ adjusted c e ≤ 15) ∧
       ((0 ≤ e + 3 ∧ r = c * 10 ^ (e + 3).toNat) ∨ (e + 3 < 0 ∧ (c : Int) = r * 10 ^ (-(e + 3)).toNat)) := by
   unfold feeRateFromSatsPerVbyte at h
   cases d with
   | nan => cases h
   | inf _ => cases h
   | fin neg c e =>
-    cases hsc : scaled 3 c e with
-    | none => simp [hsc] at h
-    | some n =>
-      simp only [hsc] at h
-      unfold feeRate at h
-      by_cases hlt : (if neg = true then -(n : Int) else (n : Int)) < 0
-      · simp [hlt] at h
-      · simp only [hlt, if_false] at h
-        have hr : r = (n : Int) := by
-          cases h
-          by_cases hn : neg = true
-          · simp only [hn, if_true] at hlt ⊢; omega
-          · simp [hn]
-        refine ⟨by omega, neg, c, e, rfl, ?_⟩
-        rcases scaled_some 3 c e n hsc with ⟨a, b⟩ | ⟨a, b⟩
-        · exact Or.inl ⟨a, by rw [hr, b]; simp⟩
-        · exact Or.inr ⟨a, by rw [hr, b]; simp⟩
+    by_cases g1 : c ≠ 0 ∧ adjusted c e > 15
+    · simp [g1] at h
+    · simp only [g1, if_false] at h
+      by_cases g2 : c ≠ 0 ∧ adjusted c e < -3
+      · simp [g2] at h
+      · simp only [g2, if_false] at h
+        cases hsc : scaled 3 c e with
+        | none => simp [hsc] at h
+        | some n =>
+          simp only [hsc] at h
+          unfold feeRate at h
+          by_cases hlt : (if neg = true then -(n : Int) else (n : Int)) < 0
+          · simp [hlt] at h
+          · simp only [hlt, if_false] at h
+            have hr : r = (n : Int) := by
+              cases h
+              by_cases hn : neg = true
+              · simp only [hn, if_true] at hlt ⊢; omega
+              · simp [hn]
+            refine ⟨by omega, neg, c, e, rfl, ?_, ?_⟩
+            · intro hc
+              constructor
+              · have := fun hh => g2 ⟨hc, hh⟩; omega
+              · have := fun hh => g1 ⟨hc, hh⟩; omega
+            · rcases scaled_some 3 c e n hsc with ⟨a, b⟩ | ⟨a, b⟩
+              · exact Or.inl ⟨a, by rw [hr, b]; simp⟩
+              · exact Or.inr ⟨a, by rw [hr, b]; simp⟩
 
 -- non-vacuity: 1.5 BTC, 1 satoshi, a ninth decimal, above the cap, -0, 1.5 sat/vB, 0.0001 sat/vB
 example : satsFromBtc (.fin false 15 (-1)) = .ok 150000000 := by decide
@@ -380,6 +412,10 @@ example : btcFromSats 10000000000 = .ok (1, 2) := by decide
 example : feeRateFromSatsPerVbyte (.fin false 15 (-1)) = .ok 1500 := by decide
 example : feeRateFromSatsPerVbyte (.fin false 1 (-4)) = .error .value := by decide
 example : satsPerVbyte 1500 = (15, -1) := by decide
+example : feeRateFromSatsPerVbyte (.fin false 1 400) = .error .value := by decide
+example : feeRateFromSatsPerVbyte (.fin false 9999999999999999 0) = .ok 9999999999999999000 := by decide +kernel
+example : feeRateFromSatsPerVbyte (.fin false 1 16) = .error .value := by decide
+example : feeRateFromSatsPerVbyte (.fin true 0 999999999) = .ok 0 := by decide
 
 /-! ## T4 (partial) — the signature sizes the estimate assumes are upper bounds -/
 
